@@ -146,6 +146,13 @@ def run(ctx):
                 if len(ds) == 1 and ds[0][2] == "assign" and ds[0][3]["k"] == "use":
                     cur = ds[0][3]["op"]
                     continue
+                # `let mut feature = "";` assigned once inside the loop: follow the one definition
+                # that is not a constant
+                nc = [d for d in ds if d[2] == "assign" and d[3]["k"] == "use" and fa.origin(d[3]["op"])[0] != "const"]
+                if len(ds) > 1 and len(nc) == 1 and len(ds) - len(nc) == len(
+                        [d for d in ds if d[2] == "assign" and d[3]["k"] == "use" and fa.origin(d[3]["op"])[0] == "const"]):
+                    cur = nc[0][3]["op"]
+                    continue
             break
         if o[0] == "call":
             t = o[2]
@@ -199,6 +206,18 @@ def run(ctx):
             and len(ro[1]["ops"]) == 1):
         raise EngineError("FEATSPAN: the feature slice at %s is not of the form base[..len]" % fa.loc(ub))
     eo = ro[1]["ops"][0]
+    # the end of the row is where the CSV reader says it is; a search of the raw bytes for a line
+    # break ends the row inside a quoted cell that contains one
+    from r_rewrite import _chain_to_source
+    ech = _chain_to_source(fa, eo)
+    searched = [c for c in ech if c in ("position", "rposition", "find", "rfind", "memchr", "find_map", "split", "lines",
+                                        "split_once", "find_byte")]
+    if searched:
+        ctx.ob("FEATSPAN", "feature-cut-at-reader-positions", False, fa.loc(ub),
+               "the end of the feature is found by searching the remaining input (%s) instead of by the "
+               "byte counts of the CSV reader: a quoted feature cell that contains a line break is cut "
+               "inside the cell" % " <- ".join(ech))
+        return
     L = None
     endtxt = "len"
     for _ in range(6):
